@@ -2,6 +2,7 @@ import Adlt.Lc.Drv
 import Adlt.Dlt.Drv
 import Adlt.Sort.Drv
 import Adlt.Chain.Drv
+import Adlt.Buf.Drv
 /-! `driver <area>`: reads `case \t implobs` lines on stdin, prints one result line each. -/
 def main (args : List String) : IO UInt32 := do
   let stdin ← IO.getStdin
@@ -10,4 +11,6 @@ def main (args : List String) : IO UInt32 := do
   | ["dp"] => Util.loop stdin Dp.doLine; return 0
   | ["srt"] => Util.loop stdin Srt.doLine; return 0
   | ["chn"] => Util.loop stdin Chn.doLine; return 0
+  | ["lm"] => Util.loop stdin Lmk.doLine; return 0
+  | ["lw"] => Util.loop stdin Dp.doLineLw; return 0
   | _ => IO.eprintln "usage: driver <area>"; return 2
